@@ -281,7 +281,9 @@ func genC06Strlen(r *plan.Rng) *plan.Plan {
 		opd := []string{"sv", "bv", "sv", "bv", "str", "byt", "n", "fl", "chr", "arr", "true", "sv + sv", "[sv, bv]", "error(sv)"}[fr.Intn(14)]
 		rf = append(rf, "g35"+string(rune('a'+k))+" := format(\""+pre+spec+post+"\", "+opd+")")
 	}
-	growers = append(growers, rf)
+	growers = append(growers, rf,
+		[]string{"g36 := bv + bv", "g36b := bytes(sv)", "g36c := string(bv)", "g36d := bytes(sv + sv)", "g36e := sv + sv + sv", "g36f := bytes(sv) + bv"},
+		[]string{"g37 := bv[len(bv)/2:] + bv", "g37b := string(bv) + sv", "g37c := bytes(len(sv) + R)", "g37d := [sv + string(bv)]", "g37e := sv + chr + n", "g37f := bytes(string(bv) + string(bv))"})
 	n := r.Range(1, 3)
 	var body, names []string
 	used := map[int]bool{}
